@@ -229,7 +229,8 @@ CHECKS = {
         "legs": lambda tier: [{"pkg": "racecheck", "run": "^TestC10$", "shards": 12 if tier == "quick" else 16, "race": True, "timeout": 900 if tier == "quick" else 7200},
                               {"pkg": "racecheck", "run": "^TestColdUtil$", "shards": 2 if tier == "quick" else 8, "race": True},
                               {"pkg": "racecheck", "run": "^TestConcurrentJSON$", "shards": 2 if tier == "quick" else 8, "race": True},
-                              {"pkg": "racecheck", "run": "^TestConcurrentKeys$", "shards": 1 if tier == "quick" else 4, "race": True}],
+                              {"pkg": "racecheck", "run": "^TestConcurrentKeys$", "shards": 1 if tier == "quick" else 4, "race": True},
+                              {"pkg": "racecheck", "run": "^TestFreshRegistryReads$", "shards": 4 if tier == "quick" else 8, "race": True}],
         "maxpar": 8,
         "rule": "hammer phase after every program: 8 goroutines lint the program's focus objects (corpus certificates on which its four focus lints - walked round-robin over the registry - apply) and never-seen-before variants of them (fresh A-labels, ACE prefix in lower / upper / mixed case) 150 (quick) / 400 (thorough) times each through a registry holding only the focus lints; the sequential reference is computed afterwards; 120 s without finishing = deadlock. one program in four concentrates on revocation lists, one in eight on OCSP responses; workers also Filter themselves a registry of their own (options that select everything or not) and reconfigure it while others lint configuration-sensitive objects through the shared one. rapid programs: 2-16 goroutines x 5-40 operations from {Lint*Ex on an own fresh parse against a shared registry, Filter, Names, Sources, ByName/BySource/Lints per kind, "
                 "WriteJSON, GetConfiguration, DefaultConfiguration}; shared registries = global + 1-3 generated filtered ones; 6-24 objects per program (corpus walked round-robin so every "
